@@ -1,10 +1,9 @@
-import itertools
-from collections.abc import Callable
+from collections.abc import Callable, Iterator
 from typing import TypeVar, Union
 
 import reactivex
 from reactivex import Observable
-from reactivex.internal.utils import infinite, is_future
+from reactivex.internal.utils import is_future
 from reactivex.typing import AnyFuture, Predicate
 
 _T = TypeVar("_T")
@@ -29,11 +28,13 @@ def while_do_(
             obs = reactivex.from_future(source)
         else:
             obs = source
-        return reactivex.defer(
-            lambda _: reactivex.concat_with_iterable(
-                itertools.takewhile(condition, (obs for _ in infinite()))
-            )
-        )
+        def sources() -> Iterator[Observable[_T]]:
+            # a generator: a StopIteration raised by the condition is an error
+            # (PEP 479), not the end of the repetition
+            while condition(obs):
+                yield obs
+
+        return reactivex.defer(lambda _: reactivex.concat_with_iterable(sources()))
 
     return while_do
 
